@@ -63,8 +63,16 @@ def main():
         rc, out = sh("git -C %s apply %s" % (wt, os.path.join(d, "patch.diff")))
         res["patch_applies"] = rc == 0
         if rc:
-            res["apply_error"] = out[-500:]
+            # the repository moved on (fix: commits) since the change was written: keep the earlier evaluation, say so
             print("patch does not apply:", out)
+            rp = os.path.join(d, "result.json")
+            if os.path.exists(rp):
+                old = json.load(open(rp))
+                if old.get("checks"):
+                    old["patch_applies_at_head"] = {"head": res["repo_head"], "applies": False, "error": out[-300:]}
+                    res = old
+                    return 2
+            res["apply_error"] = out[-500:]
             return 2
         if not a.no_confirm:
             demo = os.path.join(d, "demo_test.py")
